@@ -145,6 +145,38 @@ pub fn cell_classes(depth: u8, rng: &mut Rng, extra: usize) -> Vec<(u64, &'stati
     }
     for (i, j, t) in coords { v.push((base | il(i.min(m), j.min(m)), t)); }
   }
+  // carry-chain classes (interior cells): a coordinate whose k low bits are all ones or all zeros, for every k below
+  // the depth, the high bits random - where any +-1 done on interleaved bits must propagate a carry / borrow across k
+  // bit pairs (the bit-level fast path of `inner_cell_neighbours`, `i02h`/`oj2h` arithmetic, u32 truncations)
+  if depth >= 3 {
+    let m = n - 1;
+    let ks: Vec<u32> = if extra > 4 { (1..depth as u32).collect() } else {
+      let mut ks: Vec<u32> = vec![1, 2, depth as u32 - 1, depth as u32 - 2];
+      for _ in 0..3 { ks.push(1 + rng.below(depth as u64 - 1) as u32); }
+      for &k in &[7u32, 8, 15, 16, 24, 25, 26] { if k < depth as u32 { ks.push(k); } }
+      ks
+    };
+    for &k in &ks {
+      let low_ones = (1u64 << k) - 1;
+      for &(pat, tag) in &[(0usize, "carry-i-ones"), (1, "carry-i-zeros"), (2, "carry-j-ones"), (3, "carry-j-zeros"), (4, "carry-both-ones"), (5, "carry-both-zeros")] {
+        let b = rng.below(12) << (2 * depth as u32);
+        let hi_i = (rng.below(n) >> k) << k;
+        let hi_j = (rng.below(n) >> k) << k;
+        let ones = |hi: u64| -> u64 { (hi & !(1u64 << k)) | low_ones };          // ...0111..1
+        let zeros = |hi: u64| -> u64 { hi | (1u64 << k) };                         // ...1000..0
+        let free = |rng: &mut Rng| -> u64 { 1 + rng.below(n - 2) };
+        let (i, j) = match pat {
+          0 => (ones(hi_i), free(rng)), 1 => (zeros(hi_i), free(rng)),
+          2 => (free(rng), ones(hi_j)), 3 => (free(rng), zeros(hi_j)),
+          4 => (ones(hi_i), ones(hi_j)), _ => (zeros(hi_i), zeros(hi_j)),
+        };
+        // keep the cell strictly inside its base cell (the fast path is only taken there)
+        let i = i.max(1).min(m - 1);
+        let j = j.max(1).min(m - 1);
+        v.push((b | il(i, j), tag));
+      }
+    }
+  }
   v
 }
 
